@@ -71,12 +71,18 @@ def build(spec, okind, rng):
             m = F.PSK(M, math.pi / M)
         else:
             m = F.PSK(M)
+    def use():     # the object is USED between the setter calls
+        _ = m.K, m.M, m.demodulate(m.modulate(np.arange(min(M, 8))))
+        hist.append(("use", ))
     if okind == "set1":
+        use()
         off = float(rng.uniform(-7, 7))
         hist.append(("set", off))
         m.setPhaseOffset(off)
     elif okind == "setN":
         for _ in range(int(rng.integers(2, 5))):
+            if rng.random() < 0.7:
+                use()
             off = float(rng.choice([0.0, math.pi / M, rng.uniform(-7, 7)]))
             hist.append(("set", off))
             m.setPhaseOffset(off)
